@@ -60,7 +60,8 @@ mutual
 def nodeTree (zones : Bool) : Node → List (Str × Tree)
   | .assign _ k v => [(k, .leaf (convertValue zones v))]
   | .block _ k cs => [(k, .node (dictOf (nodeTrees zones cs)))]
-  | _ => []
+  | .sect _ _ k cs => [(k, .node (dictOf (nodeTrees zones cs)))]
+  | .comment _ _ => []
 def nodeTrees (zones : Bool) : List Node → List (Str × Tree)
   | [] => []
   | n :: ns => nodeTree zones n ++ nodeTrees zones ns
@@ -98,25 +99,28 @@ def noSectionsList : List Node → Bool
   | [] => true
   | n :: ns => noSectionsNode n && noSectionsList ns
 end
-/-- F24 class complement: no `Section` node at top level or inside blocks. -/
+/-- no `Section` node at top level or inside blocks (was the F24 class complement; F24 is fixed by ea3edea and no
+theorem needs it any more — kept for the driver's class report). -/
 def noSections (d : Doc) : Bool := noSectionsList d.sections
 
-/-- keys the dict converters assign at one level (Assignment and Block children). -/
+/-- keys the dict converters assign at one level (Assignment, Block and Section children). -/
 def dictKeys : List Node → List Str
   | [] => []
   | .assign _ k _ :: ns => k :: dictKeys ns
   | .block _ k _ :: ns => k :: dictKeys ns
-  | _ :: ns => dictKeys ns
+  | .sect _ _ k _ :: ns => k :: dictKeys ns
+  | .comment _ _ :: ns => dictKeys ns
 
 mutual
 def noDupNode : Node → Bool
   | .block _ _ cs => decide (dictKeys cs).Nodup && noDupList cs
+  | .sect _ _ _ cs => decide (dictKeys cs).Nodup && noDupList cs
   | _ => true
 def noDupList : List Node → Bool
   | [] => true
   | n :: ns => noDupNode n && noDupList ns
 end
-/-- F25 class complement: sibling keys are pairwise distinct at every level reachable through blocks
+/-- F25 class complement: sibling keys (Assignment / Block / Section names) are pairwise distinct at every level
 (at top level `META` counts as a sibling when the document has a META block; META keys are distinct). -/
 def noDupSiblings (d : Doc) : Bool :=
   decide (((if d.dmeta.isEmpty then [] else ["META".toList]) ++ dictKeys d.sections).Nodup)
@@ -164,10 +168,11 @@ def noPyDict (d : Doc) : Bool := docValuesAll (fun v => !v.isPyDict) d
 def scalarOnly (d : Doc) : Bool := docValuesAll Value.isScalar d
 
 mutual
-/-- in every block the Assignment children come before the Block children (markdown bullets that follow a
-sub-heading are read as belonging to that sub-heading). -/
+/-- in every block / section the Assignment children come before the Block / Section children (markdown bullets
+that follow a sub-heading are read as belonging to that sub-heading). -/
 def mdOrderedNode : Node → Bool
   | .block _ _ cs => assignsFirst false cs && mdOrderedList cs
+  | .sect _ _ _ cs => assignsFirst false cs && mdOrderedList cs
   | _ => true
 def mdOrderedList : List Node → Bool
   | [] => true
@@ -176,7 +181,8 @@ def assignsFirst : Bool → List Node → Bool       -- flag: a Block child has 
   | _, [] => true
   | seen, .assign _ _ _ :: ns => !seen && assignsFirst seen ns
   | _, .block _ _ _ :: ns => assignsFirst true ns
-  | seen, _ :: ns => assignsFirst seen ns
+  | _, .sect _ _ _ _ :: ns => assignsFirst true ns
+  | seen, .comment _ _ :: ns => assignsFirst seen ns
 end
 def mdOrdered (d : Doc) : Bool := mdOrderedList d.sections
 
